@@ -755,7 +755,12 @@ class Layouter:
                 addr = v if item.get('zone') is None else z[0] + v
                 g = self.zones['GLOBAL']
                 if not (z[0] <= addr <= z[1] and g[0] <= addr <= g[1]):
-                    raise Unspecified('origin outside its zone')
+                    # decided only by what follows: a byte placed from here lies outside the zone (rejected); if none
+                    # is placed, nothing says whether the origin alone is an error
+                    self.pending_outside = zname
+                    z[2] = addr
+                    cur['zone'] = zname
+                    return
                 z[2] = addr
             cur['zone'] = zname
             self._line(item, z[2], 0, scope, syms)
@@ -804,6 +809,10 @@ class Layouter:
         return resolve
 
     def _advance(self, zone, addr, size):
+        if getattr(self, 'pending_outside', None) is not None:
+            if zone == self.pending_outside and size > 0:
+                raise Reject('byte placed outside its memory zone')
+            raise Unspecified('origin outside its zone')
         z = self.zones[zone]
         new = addr + size
         if new < z[0] or new > z[1] + 1:
@@ -837,6 +846,8 @@ class Layouter:
 
     # -- pass 2 ------------------------------------------------------------------------------------
     def finish(self):
+        if getattr(self, 'pending_outside', None) is not None:
+            raise Unspecified('origin outside its zone')
         if self.conds:
             raise Unspecified('unterminated conditional block')
         zones = {k: (v[0], v[1]) for k, v in self.zones.items()}
